@@ -111,7 +111,11 @@ def all_vertices(model):
     return seen
 
 
-def clip_geometries(model, rng, count):
+def _ring_vertices(poly):
+    return [tuple(xy) for xy in poly.exterior.coords[:-1]]
+
+
+def clip_geometries(model, rng, count, classes=None):
     """[(geometry, class)] - valid shapely geometries of many kinds positioned relative to the model."""
     minx, miny, maxx, maxy = hull_bounds(model)
     w, h = max(maxx - minx, 1e-6), max(maxy - miny, 1e-6)
@@ -121,9 +125,9 @@ def clip_geometries(model, rng, count):
     if not live:
         return []
     out = []
-    classes = ['box_inside', 'box_inside', 'cover_all', 'hug_border', 'sliver', 'convex', 'concave', 'multi',
+    classes = list(classes) if classes else ['box_inside', 'box_inside', 'cover_all', 'hug_border', 'sliver', 'convex', 'concave', 'multi',
                'line', 'point', 'touch_vertex', 'touch_edge', 'one_cell', 'cell_exact',
-               'diagonal_line', 'big_triangle', 'multi_overlap', 'ring']
+               'diagonal_line', 'big_triangle', 'multi_overlap', 'ring', 'around_one_cell', 'around_one_cell', 'scattered_cells']
     for _ in range(count):
         c = pick(rng, classes)
         if c == 'box_inside':
@@ -172,6 +176,18 @@ def clip_geometries(model, rng, count):
             p0 = polys[pick(rng, live)].representative_point()
             parts = [p0, Point(p0.x + 1e-7 * w, p0.y), p0.buffer(0.3 * max(w, h) / max(2, len(live)) ** 0.5)]
             g = pick(rng, [MultiPoint(parts[:2]), GeometryCollection(parts), MultiPolygon([parts[2], box(minx, miny, minx + 0.6 * w, miny + 0.6 * h)]).buffer(0) if False else GeometryCollection([parts[2], box(minx, miny, minx + 0.6 * w, miny + 0.6 * h)])])
+        elif c == 'around_one_cell':
+            # every cell that shares a vertex with one chosen cell, but NOT that cell: a selection with a one-cell gap, so
+            # that an unselected cell is surrounded by selected vertices and edges
+            centre = pick(rng, live)
+            cv = set(_ring_vertices(polys[centre]))
+            around = [n for n in live if n != centre and cv & set(_ring_vertices(polys[n]))]
+            if not around:
+                around = [centre]
+            g = MultiPoint([polys[n].representative_point() for n in around])
+        elif c == 'scattered_cells':
+            some = [n for n in live if chance(rng, 0.4)] or [pick(rng, live)]
+            g = MultiPoint([polys[n].representative_point() for n in some])
         elif c == 'line':
             pts = [(float(rng.uniform(minx - 0.1 * w, maxx + 0.1 * w)), float(rng.uniform(miny - 0.1 * h, maxy + 0.1 * h)))
                    for _ in range(int(rng.integers(2, 5)))]
